@@ -380,9 +380,12 @@ def run(chk):
                             keys.add(v)
         if not {"trace_id", "span_id", "span_parent"} <= keys:
             return False, "ExcludeTraceparentProps drops %s, expected trace_id, span_id and span_parent" % sorted(keys), [], b.span
-        chk_reads = [1 for x in bodies for bb, t in x.switches() if (mir.o_field_path(x.switch_origin(bb))[1] or [None])[-1] == "check"
-                     or (x.switch_origin(bb)[0] == "capture" and (mir.o_field_path(common.capture_source(P, x, x.switch_origin(bb))[0])[1] or [None])[-1] == "check")
-                     or (x.switch_origin(bb)[0] == "unop" and "check" in o_str(x.switch_origin(bb)))]
+        def reads_check(x, o):
+            o, _ = mir.norm_bool(o)
+            if o[0] == "capture":
+                o = common.capture_source(P, x, o)[0]
+            return (mir.o_field_path(o)[1] or [None])[-1] == "check"
+        chk_reads = [1 for x in bodies for bb, t in x.switches() if reads_check(x, x.switch_origin(bb))]
         if not chk_reads:
             return False, "the exclusion is not conditional on `check`", [], b.span
         return True, "", sorted(keys)
